@@ -34,6 +34,10 @@ def gen_words(rng, lo=1, hi=3):
     return " ".join(rng.choice(WORDS) for _ in range(rng.randint(lo, hi)))
 
 
+# custom elements whose names begin with the name of a block-level element or of the anchor element, and anchor-like spellings
+CUSTOM_TAGS = ["<a-note>", "</a-note>", "<a-icon x=\"1\"/>", "<nav-bar>", "<main-menu>", "</details-menu>", "<li-icon>", "<p-x>", "<h1-x>", "<table-view>", "<div-x y=\"z\">", "<abbr-x>", "<address-card>"]
+
+
 def gen_inlines(rng, depth=0, in_link=False, in_em=False, in_strong=False, allow_breaks=True, plain=False):
     n = rng.randint(1, 4)
     out = []
@@ -57,7 +61,13 @@ def gen_inlines(rng, depth=0, in_link=False, in_em=False, in_strong=False, allow
         elif r < 0.87 and not in_link:
             node = ("auto", "http://x.y/" + rng.choice(WORDS))
         elif r < 0.91 and i > 0:
-            node = ("ihtml", rng.choice(["<b>", "</b>", "<i class=\"k\">", "<br/>", "<!-- c -->", "<nav-bar>", "</nav-bar>", "<details-menu x=\"1\">", "</summary-card>", "<li-icon/>", "<x-y>"]))
+            node = ("ihtml", rng.choice(["<b>", "</b>", "<i class=\"k\">", "<br/>", "<!-- c -->", "<nav-bar>", "</nav-bar>", "<details-menu x=\"1\">", "</summary-card>", "<li-icon/>", "<x-y>"] + CUSTOM_TAGS))
+        elif r < 0.93 and i == 0 and n >= 2 and depth == 0:
+            # a custom element at the very start of a paragraph line, followed by text on the same line (so it is not an HTML block of its own)
+            node = ("ihtml", rng.choice(CUSTOM_TAGS))
+            out.append(node)
+            out.append(("text", " " + gen_words(rng)))
+            continue
         elif r < 0.95 and not NO_ESC[0]:
             # inside emphasis / links an escaped backtick or '<' followed by a later code span / tag trips mistune's
             # precedence scan (known finding, see known_findings.json): not generated there
@@ -76,6 +86,8 @@ def gen_inlines(rng, depth=0, in_link=False, in_em=False, in_strong=False, allow
     for j, node in enumerate(out):
         fixed.append(node)
         if node[0] in ("hard", "soft") and (j + 1 >= len(out) or out[j + 1][0] != "text"):
+            if j + 2 < len(out) and out[j + 1][0] == "ihtml" and out[j + 1][1] in CUSTOM_TAGS and out[j + 2][0] == "text":
+                continue         # a continuation line may begin with a custom element followed by text (it cannot interrupt the paragraph)
             fixed.append(("text", gen_words(rng)))
     while fixed and fixed[-1][0] in ("hard", "soft"):
         fixed.pop()
